@@ -13,7 +13,7 @@ use vcore::sgr::{self, MColor, MStyle};
 use vcore::vt;
 use vcore::xml::{self, Element};
 
-const RULE: &str = "Inputs: UTF-8 texts from the C07 generator (text, whitespace/C0 controls, G-SGR sequences, non-SGR sequences) plus XML-special characters, entity look-alikes, wide / zero-width / combining characters, CRLF, lone CR, TAB, C1 characters; U+000C, U+FFFE, U+FFFF and DEL are replaced before rendering; x {VGA, Win10} x default fg/bg in {palette, indexed, RGB} x background on/off x min_width_px, the builder methods called in a generated order. Oracle: the output parses with an independent strict XML 1.0 parser (and, as a second opinion, every document of the run is fed to Python's expat); height == lines*18+20; text of the foreground row per line == visible text of the reference parser split at LF with one CR before the LF dropped (compared after XML end-of-line normalisation); every class has a rule; per character the declarations reached through the style sheet (fill, text-decoration-color, bold, italic, underline kinds, line-through, opacity) == the reference SGR style with invert applied against the configured defaults, RGB through the palette / xterm formula; background row fills == effective backgrounds in order. Non-trivial = at least 2 differently styled runs and at least one newline or XML-special character (distinct by case).";
+const RULE: &str = "Inputs: UTF-8 texts from the C07 generator (text, whitespace/C0 controls, G-SGR sequences, non-SGR sequences) plus XML-special characters, entity look-alikes, wide / zero-width / combining characters, CRLF, lone CR, TAB, C1 characters; U+000C, U+FFFE, U+FFFF and DEL are replaced before rendering; x {VGA, Win10} x default fg/bg in {palette, indexed, RGB} x background on/off x min_width_px, the builder methods called in a generated order. Oracle: the output parses with an independent strict XML 1.0 parser (and, as a second opinion, every document of the run is fed to Python's expat); height == lines*18+20; text of the foreground row per line == visible text of the reference parser split at LF with one CR before the LF dropped (a CR inside a line may reach the XML reader as LF - written literally - or as CR - written as a character reference); every class has a rule; per character the declarations reached through the style sheet (fill, text-decoration-color, bold, italic, underline kinds, line-through, opacity) == the reference SGR style with invert applied against the configured defaults, RGB through the palette / xterm formula; background row fills == effective backgrounds in order. Non-trivial = at least 2 differently styled runs and at least one newline or XML-special character (distinct by case).";
 
 #[derive(Clone, Debug, Serialize, Deserialize)]
 struct Case {
@@ -257,14 +257,17 @@ fn check_doc(case: &Case, doc: &str) -> Result<bool, String> {
                 p.fill = Some(default_fill);
             }
             for ch in span.text().chars() {
-                got.push((ch, p.clone()));
+                // a carriage return inside a line reaches an XML reader as LF when it is written
+                // literally (end-of-line normalisation) and as CR when written as a character
+                // reference: both spellings are compared as LF
+                got.push((if ch == '\r' { '\n' } else { ch }, p.clone()));
             }
         }
         let mut want: Vec<(char, Pres)> = vec![];
         let mut want_bg: Vec<Option<Rgb>> = vec![];
         for (st, ch) in line {
             let (p, bg) = expected_pres(st, case, pal);
-            // XML end-of-line normalisation turns a literal CR into LF
+            // (see above: CR and LF inside a line are compared alike)
             want.push((if *ch == '\r' { '\n' } else { *ch }, p));
             styles_seen.insert(format!("{:?}", st));
             // the renderer measures strings (control characters such as TAB count as one cell there)
@@ -338,7 +341,7 @@ static DOCS: Mutex<Vec<(String, String)>> = Mutex::new(Vec::new());
 
 fn run(args: &Args, rep: &mut Report) {
     let tier = args.tier;
-    rep.assume("a literal CR inside a line is compared after XML end-of-line normalisation (the renderer writes it unescaped)");
+    rep.assume("a CR inside a line is compared as LF whether it reaches the XML reader as LF (written literally, end-of-line normalisation) or as CR (written as a character reference)");
     rep.assume("underline presence/kind is read from style rules that do not also set text-decoration-color (the colour rule itself carries text-decoration-line: underline)");
     rep.assume("the width of the background row (number of cells) is not part of the property and is not checked");
     let cap = tier.pick(16_000usize, 20_000);
